@@ -38,7 +38,7 @@ CHECKS = {
     ),
     "C06": dict(
         technique="property-based testing (Hypothesis): independent re-summation of detail fractions by (own local year, asset, type, long) vs yearly_gain_loss_list, with to-date and from-date + end-to-end tier (files -> CLI -> report cells -> same predicate)",
-        text="Multi-year histories with mixed long/short sales and local-year != UTC-year instants; map equality (no duplicate, no empty line), four sums per line, grand totals, from-year restriction. Second tier, same predicate: generated multi-asset files through the real console entry point, figures read back from rp2_full_report.ods with no rp2 code in the checking process.",
+        text="Multi-year histories with mixed long/short sales and local-year != UTC-year instants; map equality (no duplicate, no empty line), four sums per line, grand totals, from-year restriction. Second tier, same predicate: generated multi-asset files through the real console entry point, figures read back from rp2_full_report.ods with no rp2 code in the checking process - the 'Gain / Loss Summary' table of each asset's Tax sheet and the asset's lines on the 'Summary' sheet, both against the re-summed detail rows.",
         note="Date-monotone histories (R3); sums compared to 1e-25 relative; the detail itself is tied to the input by C01-C05.",
         design="DESIGN.md section 4 / C06",
     ),
